@@ -380,6 +380,14 @@ func (t *Teamserver) Start() {
 			HandlerData.Methode, _ = Data["Methode"].(string)
 			HandlerData.KillDate = storedKillDate(listener["Config"])
 
+			/* proxy settings */
+			HandlerData.Proxy.Enabled, _ = Data["Proxy Enabled"].(bool)
+			HandlerData.Proxy.Type, _ = Data["Proxy Type"].(string)
+			HandlerData.Proxy.Host, _ = Data["Proxy Host"].(string)
+			HandlerData.Proxy.Port, _ = Data["Proxy Port"].(string)
+			HandlerData.Proxy.Username, _ = Data["Proxy Username"].(string)
+			HandlerData.Proxy.Password, _ = Data["Proxy Password"].(string)
+
 			HandlerData.Secure = false
 			if Data["Secure"].(string) == "true" {
 				HandlerData.Secure = true
